@@ -216,7 +216,8 @@ def crash_images(oslog, final, m, rng, exhaustive=False, max_images=None, seen=N
     if not truncations:
         ns = []
     elif exhaustive:
-        ns = range(size)
+        # exhaustive = True, or (shard, n_shards): every byte length congruent to shard
+        ns = range(size) if exhaustive is True else range(exhaustive[0], size, exhaustive[1])
     else:
         ns = set(bounds)
         ns.update(range(0, size, 512))
@@ -348,10 +349,13 @@ def one_item(ctx, item):
     truth = readers.truth_table(final, {k: [c for c in calls if readers.applicable(k, c)]
                                         for k in ('reader', 'emulator', 'xarray')})
     seen = set()
-    images = crash_images(oslog, final, m, rng, exhaustive=item.get('exhaustive', False),
+    ex = item.get('exhaustive', False)
+    images = crash_images(oslog, final, m, rng, exhaustive=tuple(ex) if isinstance(ex, list) else ex,
                           max_images=ctx['max_images'], seen=seen)
+    if isinstance(ex, list):
+        images = [im for im in images if im[0][0] == 'trunc']      # the shards share the prefixes: done by the plain item
     rec['alt_schedules'] = 0
-    if item['w'] == 'convert':
+    if item['w'] == 'convert' and not item.get('exhaustive'):
         # the same conversion under other schedules: where the bytes reach the OS in another order, the
         # prefixes of that order are crash states too
         shape_of = lambda log: [(e[1], e[3], e[4], len(e[5])) for e in log if e[3] not in ('fsync', 'initial')]
@@ -469,8 +473,8 @@ def _main(tier, seed, scratch, t0):
     if not quick:
         # exhaustive byte-length sweep on two small files
         for spec_id in (0, 14):
-            it = dict(items[spec_id], id=len(items), exhaustive=True)
-            items.append(it)
+            for shard in range(32):           # every byte length of two small files, in 32 parallel shards
+                items.append(dict(items[spec_id], id=len(items), exhaustive=[shard, 32]))
     ctx = {'seed': seed, 'n_extra': 12 if quick else 24, 'max_images': 150 if quick else 1200}
     # determinism self-test: same item twice
     stable = _stable
